@@ -1,3 +1,5 @@
+import re
+
 from mindsdb_sql.parser.ast.base import ASTNode
 from mindsdb_sql.parser.utils import indent
 
@@ -13,5 +15,12 @@ class Variable(ASTNode):
         return indent(level) + f'Variable(value={repr(self.value)}{alias_str}, is_system_var={repr(self.is_system_var)})'
 
     def get_string(self, *args, **kwargs):
-        return ('@@' if self.is_system_var else '@') + f'{str(self.value)}'
+        name = str(self.value)
+        if not re.fullmatch(r'[a-zA-Z_.$]+', name):
+            # not a plain name: has to be quoted, with a quote that is not in the name
+            for quote in ('`', "'", '"'):
+                if quote not in name:
+                    name = f'{quote}{name}{quote}'
+                    break
+        return ('@@' if self.is_system_var else '@') + name
 
